@@ -13,6 +13,7 @@ from lerax.algorithm import A2C, DQN, PPO, REINFORCE, SAC
 from lerax.callback import CallbackList
 from lerax.env.classic_control import (Acrobot, CartPole, ContinuousMountainCar, MountainCar,
                                        Pendulum)
+from lerax.space import Box, Discrete
 from lerax.wrapper import ClipAction, FlattenObservation, TimeLimit
 
 from .common.stacks import sample_action
@@ -131,13 +132,19 @@ def check_iteration_streams(ctx, idx):
     """Through the real iteration(): perturbing one environment's start state must leave the
     advantages / returns the learner trains on for every other environment bit-identical."""
     rng = ctx.rng
-    which = ["PPO", "A2C"][idx % 2]
+    which = ["PPO", "A2C", "REINFORCE"][idx % 3]
     env0 = random_tabular(rng, p_term=0.05, p_trunc=0.0)
     env = TimeLimit(env0, int(rng.integers(6, 12)))
     N, T = int(rng.integers(2, 5)), int(rng.integers(4, 9))
+    if idx % 2 == 0:
+        # square rollouts (num_envs == num_steps): the environment and the time axis cannot be told apart
+        # by their extents
+        N = T = int(rng.integers(3, 6))
+        ctx.count("iteration:square-rollout")
     policy = random_ac_policy(rng, env0)
-    algo = (PPO(num_envs=N, num_steps=T, num_epochs=1, num_batches=1, gae_lambda=0.9, gamma=0.95)
-            if which == "PPO" else A2C(num_envs=N, num_steps=T, gae_lambda=0.9, gamma=0.95))
+    algo = {"PPO": lambda: PPO(num_envs=N, num_steps=T, num_epochs=1, num_batches=1, gae_lambda=0.9, gamma=0.95),
+            "A2C": lambda: A2C(num_envs=N, num_steps=T, gae_lambda=0.9, gamma=0.95),
+            "REINFORCE": lambda: REINFORCE(num_envs=N, num_steps=T, gamma=0.95)}[which]()
     cb = _make_tap(N, T)
     k0, k1 = jr.split(jr.key(int(rng.integers(0, 2**31))))
     state = algo.reset(env, policy, key=k0, callback=cb)
@@ -235,6 +242,37 @@ def check_env_modes(ctx, env, name, idx):
                                                       "vmap": [np.asarray(x) for x in _leaves(vb)]},
                              key=f"c12:modes:{name}:{fname}")
                 break
+        # arguments outside the declared action space that the environment tolerates (it clips / selects
+        # internally): the three modes must still agree — in particular none may raise where another returns
+        if fname in ("transition", "reward"):
+            sp = env.action_space
+            outs = []
+            if isinstance(sp, Box):
+                hi, lo = np.asarray(sp.high, np.float64), np.asarray(sp.low, np.float64)
+                if np.isfinite(hi).all() and np.isfinite(lo).all():
+                    outs = [jnp.asarray(hi + 1.0, dtype=A.dtype), jnp.asarray(lo - 0.75, dtype=A.dtype)]
+            elif isinstance(sp, Discrete):
+                outs = [jnp.asarray(sp.n, dtype=A.dtype)]
+            for a_out in outs:
+                res = {}
+                for mode, call in (("eager", lambda: f(states[0], a_out, ks[0])),
+                                   ("jit", lambda: jf(states[0], a_out, ks[0])),
+                                   ("vmap", lambda: jax.tree.map(lambda x: x[0], eqx.filter_vmap(f)(
+                                       jax.tree.map(lambda x: x[None], states[0]), a_out[None], ks[:1])))):
+                    try:
+                        res[mode] = call()
+                        jax.block_until_ready(jax.tree.leaves(res[mode]))
+                    except Exception as e:  # noqa: BLE001
+                        res[mode] = f"raised {type(e).__name__}"
+                ctx.count("modes:out-of-space-action")
+                raised = [m for m, r in res.items() if isinstance(r, str)]
+                if 0 < len(raised) < 3:
+                    ctx.phi_fail("eager_jit_vmap_agree", {**case, "out_of_space_action": np.asarray(a_out),
+                                 "outcome": {m: (r if isinstance(r, str) else "returned") for m, r in res.items()}},
+                                 key=f"c12:modes-out-of-space:{name}:{fname}")
+                elif not raised and not (_close(ctx, res["eager"], res["jit"], 64.0) and _close(ctx, res["eager"], res["vmap"], 64.0)):
+                    ctx.phi_fail("eager_jit_vmap_agree", {**case, "out_of_space_action": np.asarray(a_out)},
+                                 key=f"c12:modes-out-of-space:{name}:{fname}")
         # depends only on explicit arguments: a second call returns the same bits
         again = f(states[0], actions[0], ks[0])
         if not _bit_equal(again, eager[0]):
@@ -253,7 +291,7 @@ def run(ctx):
             ("Tabular", random_tabular(ctx.rng)), ("TabularBox", random_tabular(ctx.rng, box=True))]
     if ctx.quick:
         envs = [envs[i] for i in (0, 2, 5, 6, 8)]
-    for i in range(ctx.budget(2, 8)):
+    for i in range(ctx.budget(4, 12)):
         check_iteration_streams(ctx, i)
         ctx.gc(2)
     for i, (name, env) in enumerate(envs):
